@@ -357,3 +357,93 @@ func init() {
 		c03Family{Name: "branches", Count: func(tier string) int { return nBranchKinds * nBranchCtx * nBranchForms * len(c03BranchTypes(tier)) }, Gen: c03BranchesCase},
 	)
 }
+
+// ---------------------------------------------------------------- family: scopes
+
+const (
+	nScopeBinders = 11
+	nScopeUses    = 3
+)
+
+// c03ScopesCase: what an identifier denotes at a program point. An outer `a` of type To, a
+// binder that introduces another `a` of type Ti, uses inside (must see Ti) and after the
+// binder's scope (must see To again, except for a `let` in the same scope).
+func c03ScopesCase(tier string, idx int) *c03Case {
+	prims := c03Prims("quick")
+	d := radix(idx, nScopeBinders, nScopeUses, len(prims), len(prims))
+	binder, uses, Ti, To := d[0], d[1], prims[d[2]], prims[d[3]]
+	if Ti.name == To.name {
+		return nil
+	}
+	tags := []string{fmt.Sprintf("binder:%d", binder), fmt.Sprintf("uses:%d", uses), "outer:" + To.name, "inner:" + Ti.name}
+	inside := func() []hs.Stmt {
+		st := []hs.Stmt{hs.LetT("i", Ti.t, hs.V("a")), use("i")}
+		if uses == 2 { // the inner variable is assigned as well
+			st = append(st, hs.ES(hs.Asg("=", hs.V("a"), Ti.val(1))))
+		}
+		return st
+	}
+	after := func(T tyd) []hs.Stmt {
+		if uses == 0 {
+			return nil
+		}
+		st := []hs.Stmt{hs.LetT("o", T.t, hs.V("a")), use("o")}
+		if uses == 2 {
+			st = append(st, hs.ES(hs.Asg("=", hs.V("a"), T.val(1))))
+		}
+		return st
+	}
+	outer := hs.LetT("a", To.t, To.val(0))
+	p := &hs.Program{}
+	var st []hs.Stmt
+	// a list whose elements have the inner type (for the loop binder)
+	list := hs.List(Ti.val(0), Ti.val(1))
+	switch binder {
+	case 0: // second let in the same scope
+		st = append([]hs.Stmt{outer, use("a"), hs.LetS("a", Ti.val(0))}, inside()...)
+		st = append(st, after(Ti)...)
+	case 1: // let in a nested block
+		st = append([]hs.Stmt{outer, &hs.ExprStmt{X: &hs.BlockExpr{B: hs.Blk(nil, append([]hs.Stmt{hs.LetS("a", Ti.val(0))}, inside()...)...)}}}, after(To)...)
+	case 2: // loop variable
+		st = append([]hs.Stmt{outer, &hs.For{Var: "a", Iter: list, Body: hs.Blk(nil, inside()...)}}, after(To)...)
+	case 3: // catch variable (an error object) - the inner type is fixed
+		if Ti.name != "str" {
+			return nil
+		}
+		in := []hs.Stmt{hs.LetT("i", hs.TStr, hs.Mem(hs.V("a"), "message")), use("i"), hs.LetT("ln", hs.TInt, hs.Mem(hs.V("a"), "line")), use("ln")}
+		st = append([]hs.Stmt{outer, &hs.ExprStmt{X: &hs.Try{Body: hs.Blk(nil, use("a")), Var: "a", Catch: hs.Blk(nil, in...)}}}, after(To)...)
+	case 4: // closure parameter
+		st = append([]hs.Stmt{outer, hs.LetS("k", fnLit(nil, hs.Blk(nil, inside()...), hs.Field{Name: "a", T: Ti.t})), hs.ES(hs.CallE(hs.V("k"), Ti.val(0)))}, after(To)...)
+	case 5: // function parameter over a global
+		p.Globals = append(p.Globals, &hs.Let{Name: "a", T: To.t, X: To.val(0)})
+		p.Funcs = append(p.Funcs, hs.Fn("f", nil, hs.Blk(nil, inside()...), hs.P("a", Ti.t)))
+		st = append([]hs.Stmt{hs.ES(hs.CallN("f", Ti.val(0)))}, after(To)...)
+	case 6: // local over a global, in one function only
+		p.Globals = append(p.Globals, &hs.Let{Name: "a", T: To.t, X: To.val(0)})
+		p.Funcs = append(p.Funcs, hs.Fn("f", nil, hs.Blk(nil, append([]hs.Stmt{hs.LetS("a", Ti.val(0))}, inside()...)...)))
+		st = append([]hs.Stmt{hs.ES(hs.CallN("f"))}, after(To)...)
+	case 7: // local variable over a function name; the function is callable again afterwards
+		p.Funcs = append(p.Funcs, hs.Fn("a", To.t, hs.Blk(To.val(0))))
+		blk := &hs.ExprStmt{X: &hs.BlockExpr{B: hs.Blk(nil, append([]hs.Stmt{hs.LetS("a", Ti.val(0))}, inside()...)...)}}
+		st = []hs.Stmt{blk}
+		if uses > 0 {
+			st = append(st, hs.LetT("o", To.t, hs.CallN("a")), use("o"))
+		}
+	case 8: // let inside an if branch and another one inside the else branch
+		st = append([]hs.Stmt{outer, hs.LetS("c", hs.B(true)), &hs.ExprStmt{X: &hs.If{Cond: hs.V("c"), Then: hs.Blk(nil, append([]hs.Stmt{hs.LetS("a", Ti.val(0))}, inside()...)...),
+			Else: hs.Blk(nil, hs.LetT("e", To.t, hs.V("a")), use("e"))}}}, after(To)...)
+	case 9: // closure captures the outer variable, which is shadowed afterwards
+		st = []hs.Stmt{outer, hs.LetS("k", fnLit(To.t, hs.Blk(hs.V("a")))), hs.LetS("a", Ti.val(0))}
+		st = append(st, inside()...)
+		st = append(st, hs.LetT("o", To.t, hs.CallE(hs.V("k"))), use("o"))
+	case 10: // loop variable inside a closure inside a loop over the outer name
+		inner := &hs.For{Var: "a", Iter: list, Body: hs.Blk(nil, inside()...)}
+		st = append([]hs.Stmt{outer, &hs.For{Var: "n", Iter: rng(1), Body: hs.Blk(nil, use("n"), hs.LetS("k", fnLit(nil, hs.Blk(nil, inner, hs.LetT("z", To.t, hs.V("a")), use("z")))), hs.ES(hs.CallE(hs.V("k"))))}}, after(To)...)
+	}
+	p.Funcs = append([]*hs.Func{mainFn(st...)}, p.Funcs...)
+	return single(p, tags...)
+}
+
+func init() {
+	c03Families = append(c03Families, c03Family{Name: "scopes", Count: func(string) int { return nScopeBinders * nScopeUses * 16 }, Gen: c03ScopesCase})
+}
